@@ -556,6 +556,37 @@ def np_clip(ip, args, kwargs):
     return sym.If(sym.lt(x, lo), lo, sym.If(sym.lt(hi, x), hi, x))
 
 
+def np_interp(ip, args, kwargs):
+    """numpy.interp(x, xp, fp) for concrete-length, increasing xp: piecewise linear inside,
+    CLAMPED to fp[0] / fp[-1] outside [xp[0], xp[-1]] (numpy's default left/right)"""
+    x, xp, fp = args[0], ip.iterate(args[1]), ip.iterate(args[2])
+    if len(xp) != len(fp) or len(xp) < 1 or 'left' in kwargs or 'right' in kwargs or 'period' in kwargs:
+        raise Unsupported("numpy.interp in this form")
+
+    def one(t):
+        r = fp[-1]
+        for k in range(len(xp) - 2, -1, -1):
+            a, b, fa, fb = xp[k], xp[k + 1], fp[k], fp[k + 1]
+            inside = sym.add(fa, sym.mul(sym.div(sym.sub(t, a), sym.sub(b, a)), sym.sub(fb, fa)))
+            r = sym.If(sym.lt(t, b), inside, r)
+        return sym.If(sym.le(t, xp[0]), fp[0], r)
+    if isinstance(x, (list, tuple)) or hasattr(x, 'rows') or isinstance(x, CoefArr):
+        return CoefArr([one(t) for t in ip.iterate(x)])
+    return one(x)
+
+
+def np_vdot(ip, args, kwargs):
+    """numpy.vdot(a, b) = sum(conj(a_k) * b_k)  (the FIRST argument is conjugated)"""
+    a, b = ip.iterate(args[0]), ip.iterate(args[1])
+    if len(a) != len(b):
+        ip.raise_py('ValueError', 'cannot reshape')
+    r = 0
+    for x, y in zip(a, b):
+        xc = sym.Cx(sym.real_of(x), sym.neg(sym.imag_of(x))) if isinstance(x, Cx) else x
+        r = sym.add(r, sym.mul(xc, y))
+    return r
+
+
 def np_array(ip, args, kwargs):
     v = args[0]
     items = ip.iterate(v)
@@ -671,11 +702,13 @@ def make_numpy(ip):
     ns['isfinite'] = I.Builtin('isfinite', lambda ip, a, k: not isinstance(a[0], I.NF))
     ns['isclose'] = I.Builtin('isclose', np_isclose)
     ns['clip'] = I.Builtin('clip', np_clip)
+    ns['interp'] = I.Builtin('interp', np_interp)
     ns['array'] = I.Builtin('array', np_array)
     ns['identity'] = I.Builtin('identity', np_identity)
     ns['eye'] = I.Builtin('eye', np_identity)
     ns['matmul'] = I.Builtin('matmul', np_matmul)
     ns['dot'] = I.Builtin('dot', np_matmul)
+    ns['vdot'] = I.Builtin('vdot', np_vdot)
     ns['linspace'] = I.Builtin('linspace', np_linspace)
     ns['poly1d'] = I.Builtin('poly1d', np_poly1d, typ=lambda v: isinstance(v, Poly1d))
     ns['roots'] = I.Builtin('roots', lambda ip, a, k: ip.call(ip.np_roots_model, a, k))
